@@ -297,6 +297,82 @@ func runC01(c *Ctx) {
 		c.Check(fname(pth)+"#challenge-binds-message-key-and-output", pth.Pos(), okT, ifelse(okT, "the challenge transcript contains H1(m), the public key and the VRF point of the proof ("+where+")", fmt.Sprintf("the challenge hash does not cover (H1 of the message=%v, the public key=%v, the VRF point carried in the proof=%v) directly (%s): a key holder can choose the VRF output freely and still present a proof that verifies", h1, pkIn, vrfIn, where)))
 	}
 
+	// ------------------------------------------------------------ R10
+	c.Rule("C01.R10", "PROVENANCE", "the committee size, proposer threshold, look-back distance and signature scheme are those of the protocol version in force, never of a version the block's author names: the *params.YouParams that the verification entry points hand to verifyConsensusField come from the chain's version schedule (VersionForRound*) or from the caller — they derive from no field of the header under verification other than its position in the chain (Number, ParentHash) — not params.Versions[header.CurrVersion]")
+	c.Min(2)
+	{
+		vcf := w.FuncObj("consensus/ucon", "Server", "verifyConsensusField")
+		ypT := w.Named("params", "YouParams")
+		n := 0
+		for _, fn := range w.FuncsIn("consensus/ucon") {
+			if fn.Blocks == nil || strings.HasSuffix(w.fileOf(fn.Pos()), "_test.go") {
+				continue
+			}
+			for _, ci := range callsTo(fn, vcf) {
+				args := callArgs(ci)
+				var yp, hdr ssa.Value
+				for _, a := range args {
+					if types.Identical(deref(a.Type()), ypT) {
+						yp = a
+					}
+					if nt, ok := deref(a.Type()).(*types.Named); ok && nt.Obj().Name() == "Header" && hdr == nil {
+						hdr = stripConvNoBind(a)
+					}
+				}
+				if yp == nil || hdr == nil {
+					continue
+				}
+				n++
+				c.sites++
+				c.sawFunc(fname(fn))
+				fromHdr := ""
+				derivesFrom(yp, func(x ssa.Value) bool {
+					if fa, ok := x.(*ssa.FieldAddr); ok && stripConvNoBind(fa.X) == hdr {
+						if f := fieldOfAddr(fa); f != nil && f.Name() != "Number" && f.Name() != "ParentHash" {
+							fromHdr = f.Name()
+							return true
+						}
+					}
+					return false
+				})
+				// a local variable the looked-up value was stored into
+				if fromHdr == "" {
+					if al, ok := stripConvNoBind(yp).(*ssa.Alloc); ok {
+						for _, r := range *al.Referrers() {
+							if st, isSt := r.(*ssa.Store); isSt && st.Addr == ssa.Value(al) {
+								derivesFrom(st.Val, func(x ssa.Value) bool {
+									if fa, ok := x.(*ssa.FieldAddr); ok && stripConvNoBind(fa.X) == hdr {
+										if f := fieldOfAddr(fa); f != nil && f.Name() != "Number" && f.Name() != "ParentHash" {
+											fromHdr = f.Name()
+											return true
+										}
+									}
+									return false
+								})
+							}
+						}
+					}
+				}
+				sched := derivesFrom(yp, func(x ssa.Value) bool {
+					if cc, ok := x.(*ssa.Call); ok {
+						if o := calleeObj(cc); o != nil && strings.HasPrefix(o.Name(), "VersionForRound") {
+							return true
+						}
+					}
+					if p, ok := x.(*ssa.Parameter); ok && types.Identical(deref(p.Type()), ypT) {
+						return true
+					}
+					return false
+				})
+				ok := fromHdr == "" && sched
+				c.Check(fmt.Sprintf("%s#params-of-the-version-in-force", fname(fn)), ci.Pos(), ok, ifelse(ok, "the parameters come from the chain's version schedule (or the caller)", ifelse(fromHdr != "", "the parameters are looked up with header."+fromHdr+" of the header under verification: its author chooses the committee size, thresholds, look-back distance and signature scheme the header is judged by", "the parameters do not come from the chain's version schedule")))
+			}
+		}
+		if n == 0 {
+			c.Undecided("consensus/ucon#verifyConsensusField-callers", token.NoPos, "no call of verifyConsensusField found")
+		}
+	}
+
 	// ------------------------------------------------------------ R9
 	c.Rule("C01.R9", "MUST-REACH", "a valid signature of every counted voter: with BLS enabled verifyVotes checks ONE aggregate over a common message against the sum of the listed validators' BLS keys, which proves each listed voter signed only if every registered key is known to be possessed by its registrant (otherwise a key chosen as x*G minus the others' keys lets one validator sign for all of them). So the path that admits a BLS key from a transaction into a validator record — TxCreateValidator.PreCheck / Verify, handleCreate, teCreate — reaches a single-key BLS verification (a proof of possession)")
 	c.Min(1)
